@@ -15,4 +15,4 @@ def lit_rewrite(text, default='Fx'):
         s = re.sub(r'_?f(32|64)$', '', s).replace('_', '')
         ip, fp = s.split('.')
         return f'{suffix}::lit({int(ip + fp)}, {10 ** len(fp)})'
-    return re.sub(r'(?<![\w.])\d[\d_]*\.\d[\d_]*(_?f32|_?f64)?(?![\w.])', sub, text)
+    return re.sub(r'(?<![\w.])\d[\d_]*\.\d[\d_]*(_?f32|_?f64)?(?![\w])', sub, text)
